@@ -721,7 +721,7 @@ func vIdentLanceroConfigure(c *vCase) {
 	ncards := 2 + r.Intn(2)
 	rows := 2 + r.Intn(4)
 	gpath := filepath.Join(c.Dir, "cringeGlobals.json")
-	os.WriteFile(gpath, []byte(fmt.Sprintf(`{"SETT": 10, "seqln": %d, "lsync": 40, "testpattern": 0, "propagationdelay": 1, "NSAMP": 1, "carddelay": 1, "XPT": 0}`, rows)), 0o644)
+	os.WriteFile(gpath, []byte(fmt.Sprintf(`{"SETT": 10, "seqln": %d, "lsync": 2000, "testpattern": 0, "propagationdelay": 1, "NSAMP": 1, "carddelay": 1, "XPT": 0}`, rows)), 0o644)
 	old := cringeGlobalsPath
 	cringeGlobalsPath = gpath
 	defer func() { cringeGlobalsPath = old }()
@@ -757,6 +757,31 @@ func vIdentLanceroConfigure(c *vCase) {
 		}
 		c.Cov("configure_refused", 1)
 		return
+	}
+	if !reallyDup && c.Idx%80 == 53 {
+		// the cards are sampled by the real Sample (scripted cards, each delivering its own number of columns)
+		for _, dev := range ls.active {
+			dev.ncols = 0
+			card := vEndlessCard(rows, cols[dev.devnum], uint64(r.Int63()))
+			dev.card = card
+		}
+		if err := ls.Sample(); err != nil {
+			c.Inconclusive("setup", "%s: Sample failed on scripted cards: %v", what, err)
+			return
+		}
+		want := 0
+		for _, dev := range ls.active {
+			want += rows * cols[dev.devnum] * 2
+			if dev.ncols != cols[dev.devnum] {
+				c.Violate("c19:sampled-geometry", "%s: card %d delivers %d columns, after sampling the source says %d", what, dev.devnum, cols[dev.devnum], dev.ncols)
+				return
+			}
+		}
+		if ls.nchan != want {
+			c.Violate("c19:sampled-geometry", "%s: the cards deliver %d streams, after sampling the source has %d", what, want, ls.nchan)
+			return
+		}
+		c.Cov("configure_cases_sampled_from_scripted_cards", 1)
 	}
 	// what Sample does with the cards Configure made active (the column count is a property of the card)
 	ls.nchan = 0
